@@ -2,6 +2,7 @@ package main
 
 import (
 	"fmt"
+	"os"
 	"go/types"
 	"strings"
 
@@ -10,7 +11,7 @@ import (
 
 // ctx simplifies a boolean term to a constant when the path condition decides it syntactically.
 func ctx(st *State, t *Term) *Term {
-	if t.IsConst() {
+	if t.IsConst() || os.Getenv("GOSYM_NOCTX") != "" {
 		return t
 	}
 	switch st.implied(t) {
